@@ -1,0 +1,471 @@
+//! Seams for deterministic simulation.
+//!
+//! Compiled only with `--cfg trusttunnel_verif`; the shipped crate does not contain this
+//! module. It provides drop-in replacements for the few operating-system facing types the
+//! endpoint uses (`tokio::net::*`, `std::net::UdpSocket`, `socket2::SockRef`,
+//! `ring::rand::SystemRandom`). A file opts in with a single line,
+//! `#[cfg(trusttunnel_verif)] use crate::verif::tokio;`, which shadows the extern crate name
+//! for that file only, so none of its existing code is touched.
+//!
+//! Every replacement type is a thin shell around a trait object obtained from a
+//! [`os::World`] the simulation harness installs for the current thread. The simulation
+//! itself (buffers, faults, schedules) lives outside of this repository.
+
+pub mod os {
+    use std::cell::RefCell;
+    use std::future::Future;
+    use std::io;
+    use std::net::SocketAddr;
+    use std::pin::Pin;
+    use std::rc::Rc;
+    use std::sync::Arc;
+    use std::task::{Context, Poll};
+    use tokio::io::ReadBuf;
+
+    pub type BoxFuture<T> = Pin<Box<dyn Future<Output = T> + Send + 'static>>;
+
+    /// A simulated stream socket as the endpoint sees it
+    pub trait TcpConn: Send + Sync {
+        fn poll_read(&self, cx: &mut Context<'_>, buf: &mut ReadBuf<'_>) -> Poll<io::Result<()>>;
+        fn poll_write(&self, cx: &mut Context<'_>, data: &[u8]) -> Poll<io::Result<usize>>;
+        fn try_write(&self, data: &[u8]) -> io::Result<usize>;
+        fn poll_writable(&self, cx: &mut Context<'_>) -> Poll<io::Result<()>>;
+        fn poll_flush(&self, cx: &mut Context<'_>) -> Poll<io::Result<()>>;
+        fn poll_shutdown(&self, cx: &mut Context<'_>) -> Poll<io::Result<()>>;
+        fn set_nodelay(&self, v: bool) -> io::Result<()>;
+        fn set_keepalive(&self, v: bool) -> io::Result<()>;
+        fn local_addr(&self) -> io::Result<SocketAddr>;
+        fn peer_addr(&self) -> io::Result<SocketAddr>;
+        /// The read half (or the whole socket) is dropped
+        fn close_read(&self);
+        /// The write half (or the whole socket) is dropped
+        fn close_write(&self);
+    }
+
+    pub trait TcpAcceptor: Send + Sync {
+        fn poll_accept(
+            &self,
+            cx: &mut Context<'_>,
+        ) -> Poll<io::Result<(Arc<dyn TcpConn>, SocketAddr)>>;
+        fn local_addr(&self) -> io::Result<SocketAddr>;
+        fn close(&self);
+    }
+
+    pub trait UdpSock: Send + Sync {
+        fn connect(&self, peer: SocketAddr) -> io::Result<()>;
+        fn local_addr(&self) -> io::Result<SocketAddr>;
+        fn poll_send(&self, cx: &mut Context<'_>, data: &[u8]) -> Poll<io::Result<usize>>;
+        fn poll_recv(&self, cx: &mut Context<'_>, buf: &mut ReadBuf<'_>) -> Poll<io::Result<()>>;
+        fn poll_readable(&self, cx: &mut Context<'_>) -> Poll<io::Result<()>>;
+        fn try_recv(&self, buf: &mut Vec<u8>) -> io::Result<usize>;
+        fn close(&self);
+    }
+
+    pub trait RawIcmp: Send + Sync {
+        fn poll_send_to(
+            &self,
+            cx: &mut Context<'_>,
+            dst: std::net::IpAddr,
+            ttl: u8,
+            packet: &[u8],
+        ) -> Poll<io::Result<()>>;
+        /// Yields the peer and the packet as a raw socket would: IPv4 packets include the
+        /// IP header, IPv6 packets do not
+        fn poll_recv_from(
+            &self,
+            cx: &mut Context<'_>,
+        ) -> Poll<io::Result<(std::net::IpAddr, bytes::Bytes)>>;
+        fn close(&self);
+    }
+
+    /// Everything outside of the endpoint
+    pub trait World {
+        fn tcp_connect(&self, peer: SocketAddr) -> BoxFuture<io::Result<Arc<dyn TcpConn>>>;
+        fn tcp_bind(&self, addr: SocketAddr) -> io::Result<Arc<dyn TcpAcceptor>>;
+        fn lookup_host(&self, host: String) -> BoxFuture<io::Result<Vec<SocketAddr>>>;
+        fn udp_bind(&self, addr: SocketAddr) -> io::Result<Arc<dyn UdpSock>>;
+        fn raw_icmp(&self, is_v4: bool, if_name: &str) -> io::Result<Arc<dyn RawIcmp>>;
+        fn fill_random(&self, dest: &mut [u8]);
+    }
+
+    thread_local! {
+        static WORLD: RefCell<Option<Rc<dyn World>>> = const { RefCell::new(None) };
+    }
+
+    /// Install (or remove) the world of the current thread
+    pub fn install(world: Option<Rc<dyn World>>) {
+        WORLD.with(|w| *w.borrow_mut() = world);
+    }
+
+    pub(crate) fn with_world<R>(f: impl FnOnce(&dyn World) -> R) -> io::Result<R> {
+        WORLD.with(|w| match w.borrow().as_ref() {
+            Some(w) => Ok(f(w.as_ref())),
+            None => Err(io::Error::new(
+                io::ErrorKind::Other,
+                "no simulated world installed",
+            )),
+        })
+    }
+
+    pub struct TcpStream {
+        conn: Option<Arc<dyn TcpConn>>,
+    }
+
+    pub struct OwnedReadHalf {
+        conn: Arc<dyn TcpConn>,
+    }
+
+    pub struct OwnedWriteHalf {
+        conn: Arc<dyn TcpConn>,
+    }
+
+    impl TcpStream {
+        pub fn from_conn(conn: Arc<dyn TcpConn>) -> Self {
+            Self { conn: Some(conn) }
+        }
+
+        fn conn(&self) -> &Arc<dyn TcpConn> {
+            self.conn.as_ref().unwrap()
+        }
+
+        pub async fn connect(peer: SocketAddr) -> io::Result<Self> {
+            let fut = with_world(|w| w.tcp_connect(peer))?;
+            fut.await.map(Self::from_conn)
+        }
+
+        pub fn set_nodelay(&self, v: bool) -> io::Result<()> {
+            self.conn().set_nodelay(v)
+        }
+
+        pub fn set_keepalive(&self, v: bool) -> io::Result<()> {
+            self.conn().set_keepalive(v)
+        }
+
+        pub fn local_addr(&self) -> io::Result<SocketAddr> {
+            self.conn().local_addr()
+        }
+
+        pub fn peer_addr(&self) -> io::Result<SocketAddr> {
+            self.conn().peer_addr()
+        }
+
+        pub fn into_split(mut self) -> (OwnedReadHalf, OwnedWriteHalf) {
+            let conn = self.conn.take().unwrap();
+            (
+                OwnedReadHalf { conn: conn.clone() },
+                OwnedWriteHalf { conn },
+            )
+        }
+    }
+
+    impl Drop for TcpStream {
+        fn drop(&mut self) {
+            if let Some(c) = self.conn.take() {
+                c.close_write();
+                c.close_read();
+            }
+        }
+    }
+
+    impl std::fmt::Debug for TcpStream {
+        fn fmt(&self, f: &mut std::fmt::Formatter<'_>) -> std::fmt::Result {
+            write!(f, "TcpStream(sim)")
+        }
+    }
+
+    impl tokio::io::AsyncRead for TcpStream {
+        fn poll_read(
+            self: Pin<&mut Self>,
+            cx: &mut Context<'_>,
+            buf: &mut ReadBuf<'_>,
+        ) -> Poll<io::Result<()>> {
+            self.conn().poll_read(cx, buf)
+        }
+    }
+
+    impl tokio::io::AsyncWrite for TcpStream {
+        fn poll_write(
+            self: Pin<&mut Self>,
+            cx: &mut Context<'_>,
+            data: &[u8],
+        ) -> Poll<io::Result<usize>> {
+            self.conn().poll_write(cx, data)
+        }
+
+        fn poll_flush(self: Pin<&mut Self>, cx: &mut Context<'_>) -> Poll<io::Result<()>> {
+            self.conn().poll_flush(cx)
+        }
+
+        fn poll_shutdown(self: Pin<&mut Self>, cx: &mut Context<'_>) -> Poll<io::Result<()>> {
+            self.conn().poll_shutdown(cx)
+        }
+    }
+
+    impl Drop for OwnedReadHalf {
+        fn drop(&mut self) {
+            self.conn.close_read();
+        }
+    }
+
+    impl tokio::io::AsyncRead for OwnedReadHalf {
+        fn poll_read(
+            self: Pin<&mut Self>,
+            cx: &mut Context<'_>,
+            buf: &mut ReadBuf<'_>,
+        ) -> Poll<io::Result<()>> {
+            self.conn.poll_read(cx, buf)
+        }
+    }
+
+    impl OwnedWriteHalf {
+        pub fn try_write(&self, data: &[u8]) -> io::Result<usize> {
+            self.conn.try_write(data)
+        }
+
+        pub async fn writable(&self) -> io::Result<()> {
+            std::future::poll_fn(|cx| self.conn.poll_writable(cx)).await
+        }
+    }
+
+    impl Drop for OwnedWriteHalf {
+        fn drop(&mut self) {
+            self.conn.close_write();
+        }
+    }
+
+    impl tokio::io::AsyncWrite for OwnedWriteHalf {
+        fn poll_write(
+            self: Pin<&mut Self>,
+            cx: &mut Context<'_>,
+            data: &[u8],
+        ) -> Poll<io::Result<usize>> {
+            self.conn.poll_write(cx, data)
+        }
+
+        fn poll_flush(self: Pin<&mut Self>, cx: &mut Context<'_>) -> Poll<io::Result<()>> {
+            self.conn.poll_flush(cx)
+        }
+
+        fn poll_shutdown(self: Pin<&mut Self>, cx: &mut Context<'_>) -> Poll<io::Result<()>> {
+            self.conn.poll_shutdown(cx)
+        }
+    }
+
+    pub struct TcpListener {
+        inner: Arc<dyn TcpAcceptor>,
+    }
+
+    impl TcpListener {
+        pub async fn bind(addr: SocketAddr) -> io::Result<Self> {
+            with_world(|w| w.tcp_bind(addr))?.map(|inner| Self { inner })
+        }
+
+        pub async fn accept(&self) -> io::Result<(TcpStream, SocketAddr)> {
+            std::future::poll_fn(|cx| self.inner.poll_accept(cx))
+                .await
+                .map(|(c, a)| (TcpStream::from_conn(c), a))
+        }
+
+        pub fn local_addr(&self) -> io::Result<SocketAddr> {
+            self.inner.local_addr()
+        }
+    }
+
+    impl Drop for TcpListener {
+        fn drop(&mut self) {
+            self.inner.close();
+        }
+    }
+
+    pub struct UdpSocket {
+        inner: Arc<dyn UdpSock>,
+    }
+
+    impl UdpSocket {
+        pub async fn bind(addr: SocketAddr) -> io::Result<Self> {
+            with_world(|w| w.udp_bind(addr))?.map(|inner| Self { inner })
+        }
+
+        pub fn from_std(socket: StdUdpSocket) -> io::Result<Self> {
+            Ok(socket.into_inner())
+        }
+
+        pub async fn connect(&self, peer: SocketAddr) -> io::Result<()> {
+            self.inner.connect(peer)
+        }
+
+        pub fn local_addr(&self) -> io::Result<SocketAddr> {
+            self.inner.local_addr()
+        }
+
+        pub async fn send(&self, data: &[u8]) -> io::Result<usize> {
+            std::future::poll_fn(|cx| self.inner.poll_send(cx, data)).await
+        }
+
+        pub async fn recv(&self, buf: &mut [u8]) -> io::Result<usize> {
+            let mut buf = ReadBuf::new(buf);
+            std::future::poll_fn(|cx| self.inner.poll_recv(cx, &mut buf)).await?;
+            Ok(buf.filled().len())
+        }
+
+        pub async fn readable(&self) -> io::Result<()> {
+            std::future::poll_fn(|cx| self.inner.poll_readable(cx)).await
+        }
+
+        pub fn try_recv_buf(&self, buf: &mut Vec<u8>) -> io::Result<usize> {
+            self.inner.try_recv(buf)
+        }
+    }
+
+    impl Drop for UdpSocket {
+        fn drop(&mut self) {
+            self.inner.close();
+        }
+    }
+
+    /// Stands for `std::net::UdpSocket` (only what `net_utils::make_udp_socket` and
+    /// `udp_forwarder::make_udp_socket` need)
+    pub struct StdUdpSocket {
+        inner: Option<UdpSocket>,
+    }
+
+    impl StdUdpSocket {
+        pub fn bind(addr: SocketAddr) -> io::Result<Self> {
+            with_world(|w| w.udp_bind(addr))?.map(|inner| Self {
+                inner: Some(UdpSocket { inner }),
+            })
+        }
+
+        pub fn connect(&self, peer: &SocketAddr) -> io::Result<()> {
+            self.inner.as_ref().unwrap().inner.connect(*peer)
+        }
+
+        pub fn set_nonblocking(&self, _: bool) -> io::Result<()> {
+            Ok(())
+        }
+
+        fn into_inner(mut self) -> UdpSocket {
+            self.inner.take().unwrap()
+        }
+    }
+
+    pub struct RawIcmpSocket {
+        inner: Arc<dyn RawIcmp>,
+    }
+
+    impl RawIcmpSocket {
+        pub fn new(is_v4: bool, if_name: &str) -> io::Result<Self> {
+            with_world(|w| w.raw_icmp(is_v4, if_name))?.map(|inner| Self { inner })
+        }
+
+        pub async fn send_to(
+            &self,
+            dst: std::net::IpAddr,
+            ttl: u8,
+            packet: &[u8],
+        ) -> io::Result<()> {
+            std::future::poll_fn(|cx| self.inner.poll_send_to(cx, dst, ttl, packet)).await
+        }
+
+        pub async fn recv_from(&self) -> io::Result<(std::net::IpAddr, bytes::Bytes)> {
+            std::future::poll_fn(|cx| self.inner.poll_recv_from(cx)).await
+        }
+    }
+
+    impl Drop for RawIcmpSocket {
+        fn drop(&mut self) {
+            self.inner.close();
+        }
+    }
+
+    pub async fn lookup_host(host: String) -> io::Result<std::vec::IntoIter<SocketAddr>> {
+        let fut = with_world(|w| w.lookup_host(host))?;
+        fut.await.map(Vec::into_iter)
+    }
+
+    pub fn fill_random(dest: &mut [u8]) {
+        let _ = with_world(|w| w.fill_random(dest));
+    }
+}
+
+/// Shadows the `tokio` crate name: everything is the real thing except `net`
+pub mod tokio {
+    pub use ::tokio::*;
+
+    pub mod net {
+        pub use super::super::os::lookup_host;
+        pub use super::super::os::{TcpListener, TcpStream, UdpSocket};
+
+        pub mod tcp {
+            pub use super::super::super::os::{OwnedReadHalf, OwnedWriteHalf};
+        }
+    }
+}
+
+/// Shadows the `tokio` crate name for `core.rs`: only the TCP listener is replaced, the UDP
+/// socket handed to the QUIC multiplexer (which is not simulated) stays the real type
+pub mod tokio_tcp_only {
+    pub use ::tokio::*;
+
+    pub mod net {
+        pub use super::super::os::TcpListener;
+        pub use ::tokio::net::UdpSocket;
+    }
+}
+
+/// Shadows the `std` crate name for `net_utils.rs`: only `net::UdpSocket` is replaced
+pub mod std {
+    pub use ::std::*;
+
+    pub mod net {
+        pub use super::super::os::StdUdpSocket as UdpSocket;
+        pub use ::std::net::{
+            AddrParseError, IpAddr, Ipv4Addr, Ipv6Addr, Shutdown, SocketAddr, SocketAddrV4,
+            SocketAddrV6, TcpListener, TcpStream, ToSocketAddrs,
+        };
+    }
+}
+
+/// Shadows the `socket2` crate name for `core.rs`
+pub mod socket2 {
+    use super::os::TcpStream;
+
+    pub struct SockRef<'a>(&'a TcpStream);
+
+    impl<'a> From<&'a TcpStream> for SockRef<'a> {
+        fn from(s: &'a TcpStream) -> Self {
+            Self(s)
+        }
+    }
+
+    impl SockRef<'_> {
+        pub fn set_keepalive(&self, v: bool) -> ::std::io::Result<()> {
+            self.0.set_keepalive(v)
+        }
+    }
+}
+
+/// Shadows the `ring` crate name for `http_icmp_codec.rs`
+pub mod ring {
+    pub mod rand {
+        pub trait SecureRandom {
+            fn fill(&self, dest: &mut [u8]) -> Result<(), ()>;
+        }
+
+        pub struct SystemRandom;
+
+        impl SystemRandom {
+            #[allow(clippy::new_without_default)]
+            pub fn new() -> Self {
+                Self
+            }
+        }
+
+        impl SecureRandom for SystemRandom {
+            fn fill(&self, dest: &mut [u8]) -> Result<(), ()> {
+                super::super::os::fill_random(dest);
+                Ok(())
+            }
+        }
+    }
+}
